@@ -100,6 +100,48 @@ def grid_case(item):
     return res
 
 
+def multisample_case(item):
+    """Several samples whose rows appear in the file in an order that is NOT the sorted sample order, with
+    per-sample counts, copy numbers, purity and error rate: row k of a grid must be the k-th SORTED sample."""
+    density, prec, G, perm_kind = item
+    samples = ["S2", "S10", "S1"]
+    d = scratch()
+    res = {"item": item, "problems": [], "n": 0, "worst": 0.0}
+    try:
+        f = os.path.join(d, "in.tsv")
+        rows = []
+        spec = {}
+        for m in range(6):
+            order = [samples, samples[::-1], [samples[1], samples[2], samples[0]]][(m + perm_kind) % 3]
+            for s in order:
+                j = samples.index(s)
+                a, b = 30 + 7 * m + 11 * j, 3 + 5 * j + m
+                major, minor, normal = 1 + (m + j) % 3, ((m + j) % 3 + j) % 2 if (1 + (m + j) % 3) >= 1 else 0, 1 + (m % 2)
+                minor = min(minor, major)
+                t, eps = (0.3, 0.65, 1.0)[j], (1e-3, 0.02, 0.1)[(m + j) % 3]
+                spec[("q%d" % m, s)] = (a, b, major, minor, normal, t, eps)
+                rows.append("q%d\t%s\t%d\t%d\t%d\t%d\t%d\t%r\t%r" % (m, s, a, b, major, minor, normal, t, eps))
+        with open(f, "w") as fh:
+            fh.write(HDR + "\n" + "\n".join(rows) + "\n")
+        data, smp = _load(f, density, G, prec)
+        if list(smp) != sorted(samples):
+            res["problems"].append("samples reported as %r, expected sorted %r" % (list(smp), sorted(samples)))
+        for dp in data:
+            for k, s in enumerate(sorted(samples)):
+                res["n"] += 1
+                ex = ref_grid(*spec[(dp.name, s)], density, prec, G)
+                w = float(np.max(np.abs(dp.value[k] - ex) / (1 + np.abs(ex))))
+                res["worst"] = max(res["worst"], w)
+                if not w <= 1e-8:
+                    res["problems"].append("mutation %s: grid row %d is not the model for sample %s (the %d-th sorted sample); worst relative error %.3g" % (dp.name, k, s, k, w))
+                    break
+    except Exception as e:
+        res["problems"].append("raised %s: %s" % (type(e).__name__, e))
+    finally:
+        shutil.rmtree(d, ignore_errors=True)
+    return res
+
+
 def norm_case(item):
     depth, density, prec, cn, t, eps = item
     from scipy.special import logsumexp
@@ -204,6 +246,10 @@ def main(tier, seed):
             for cn in ((1, 0, 2), (2, 1, 2), (3, 3, 1)):
                 for t, eps in ((1.0, 1e-3), (0.3, 0.2)):
                     items.append(("norm", (depth, dens, prec, cn, t, eps)))
+    for dens, prec in (("binomial", 1.0), ("beta-binomial", 400.0)):
+        for G in (2, 11):
+            for pk in (0, 1, 2):
+                items.append(("multisample", (dens, prec, G, pk)))
     for part in oracle.partitions(range(4)):
         part = tuple(tuple(sorted(b)) for b in sorted(part, key=min))
         for p_out in (0.0, 1e-4, 0.3):
@@ -226,7 +272,7 @@ def main(tier, seed):
 
 def _dispatch(it):
     kind, item = it
-    return kind, {"grid": grid_case, "norm": norm_case, "cluster": cluster_case}[kind](item)
+    return kind, {"grid": grid_case, "norm": norm_case, "cluster": cluster_case, "multisample": multisample_case}[kind](item)
 
 
 def _tup(x):
